@@ -5,10 +5,10 @@ from harness import common as C
 from harness import zoo as Z
 from props import rotcase
 
-ANCHORS = ["T3", "T5eof", "T5rot"]
+ANCHORS = ["T3", "T5eof", "T5rot", "T5flag"]
 MODELS = ["RotCase"]
 RULE = ("base models real/complex/Hilbert EOF and CPCCA family (alpha grid, PCA on/off) x n_modes 2..k x power 1..4 x well separated and nearly "
-        "equal variances; rotation-model correspondence on EOFRotator/ComplexEOFRotator; non-trivial: k >= 2 and the rotation matrix differs from the "
+        "equal variances; in a third of the cases the rotator object had rotated another model and been queried before (call history); rotation-model correspondence on EOFRotator/ComplexEOFRotator; non-trivial: k >= 2 and the rotation matrix differs from the "
         "identity; distinct by input hash")
 PARTIAL = ["C11_varimax_criterion_full (ascent of the Varimax fixed-point iteration) is stated, not proved; tested on the implementation",
            "the cross-set rotator (combined loadings in physical space) is covered by the API-level oracle; its algebra is the same rot_recon lemma applied per field, not re-proved"]
@@ -38,12 +38,22 @@ def run_single(ctx, rng, N):
         k = int(rng.integers(2, kb + 1))
         power = int(rng.choice([1, 1, 2, 3, 4]))
         replay = dict(kind="single", cls=kind, X=np.asarray(X.values), kb=kb, k=k, power=power)
-        ctx.case(("c11", kind, n, p, kb, k, power, near, i), nontrivial=True, tag="%sRotator/power%d/%s" % (kind, power, "near-equal" if near else "separated"),
+        ctx.case(("c11", kind, n, p, kb, k, power, near, i), nontrivial=True, tag="%sRotator/power%d/%s%s" % (kind, power, "near-equal" if near else "separated", "/refit" if i % 3 == 2 else ""),
                  sample=dict(cls=kind + "Rotator", shape=[n, p], base_modes=kb, n_modes=k, power=power, near_equal_spectrum=near))
         try:
             m = sp.make(kb, solver="full")
             m.fit(X, "time")
             rot = Z.rotator_for(kind)(n_modes=k, power=power, max_iter=5000, rtol=1e-12)
+            if i % 3 == 2:
+                # the rotator object rotated another model (unrelated data of the same structure) and was used before
+                other = C.other_like(np.random.default_rng(7919 * i + 23), X)
+                m0 = sp.make(kb, solver="full")
+                m0.fit(other, "time")
+                try:
+                    rot.fit(m0)
+                    C.exercise(rot, other)
+                except RuntimeError:
+                    pass
             rot.fit(m)
         except RuntimeError as e:
             if "converge" in str(e):
@@ -105,12 +115,22 @@ def run_cross(ctx, rng, N):
         if name == "CPCCA":
             kw["alpha"] = [float(rng.choice([0.0, 0.5, 1.0])), float(rng.choice([0.0, 0.5, 1.0]))]
         replay = dict(kind="cross", cls=name, X=np.asarray(X.values), Y=np.asarray(Y.values), kb=kb, k=k, power=power, kw=kw)
-        ctx.case(("c11x", name, n, p1, p2, kb, k, power, str(kw)), nontrivial=True, tag="%sRotator/power%d" % (name, power),
+        ctx.case(("c11x", name, n, p1, p2, kb, k, power, str(kw)), nontrivial=True, tag="%sRotator/power%d%s" % (name, power, "/refit" if i % 3 == 2 else ""),
                  sample=dict(cls=name + " rotator", shapes=[[n, p1], [n, p2]], base_modes=kb, n_modes=k, power=power, kw=kw))
         try:
             m = sp.make(kb, **kw)
             m.fit(X, Y, "time")
             rot = Z.rotator_for(name)(n_modes=k, power=power, max_iter=5000, rtol=1e-12)
+            if i % 3 == 2:
+                rh = np.random.default_rng(7919 * i + 29)
+                X0, Y0 = C.other_like(rh, X), C.other_like(rh, Y)
+                m0 = sp.make(kb, **kw)
+                m0.fit(X0, Y0, "time")
+                try:
+                    rot.fit(m0)
+                    C.exercise(rot, X0, Y0)
+                except RuntimeError:
+                    pass
             rot.fit(m)
             rx, ry = rot.inverse_transform(*rot.scores())
             s1, s2 = m.scores()
